@@ -510,6 +510,33 @@ Proof.
   repeat constructor; simpl; intuition discriminate.
 Qed.
 
+(** rows of different sizes (harness mode 20): the row of key [k] is a nested keyed list of [k mod 3]
+    one-node rows, i.e. it owns [k mod 3 + 1] top-level nodes, the last one being the inner list's
+    marker.  The hypotheses hold for such builders too ([var_bld_ok]), and moving the last row to the
+    front puts it before the FIRST node of the row that was first *)
+Definition ex_nested_bld : builder := var_bld (fun k => S (N.to_nat (N.modulo k 3))).
+Definition ex_nested : kstate :=
+  fst (build_mount ex_nested_bld ([100] ++ [101])%N (hd_error [101%N]) 200%N [1; 2; 3]%N).
+
+Example ex_nested_wf : st_wf [100]%N [101%N] ex_nested.
+Proof.
+  apply (build_mount_wf ex_nested_bld [100]%N [101%N] 200%N [1; 2; 3]%N).
+  - apply var_bld_ok. intros k. apply le_n_S, Nat.le_0_l.
+  - repeat constructor; simpl; intuition discriminate.
+  - repeat constructor; simpl; intuition discriminate.
+  - simpl. intros n [H|[H|[]]]; subst; reflexivity.
+Qed.
+
+Example ex_nested_ok : keyed_ok [100]%N [101%N] ex_nested [3; 1; 2]%N.
+Proof.
+  apply keyed_rebuild_ok; [exact ex_nested_wf|]. repeat constructor; simpl; intuition discriminate.
+Qed.
+
+Example ex_nested_result :
+  ks_dom ex_nested = [100; 200; 201; 202; 203; 204; 205; 206; 101]%N
+  /\ ks_dom (state_after ex_nested [3; 1; 2]%N) = [100; 205; 200; 201; 202; 203; 204; 206; 101]%N.
+Proof. vm_compute. split; reflexivity. Qed.
+
 (* ----------------------------------------- which items are new, and the final list *)
 
 (** the new items of an update: built in order for the keys of [to] that were not rendered *)
